@@ -332,6 +332,12 @@ class Explorer:
                         continue
                 v = ('field', v, name)
                 continue
+            if p.startswith('[_'):
+                try:
+                    v = ('index', v, env.get(int(p[2:-1]), ('undef', int(p[2:-1]))))
+                    continue
+                except ValueError:
+                    pass
             if p.startswith('[c') and not p.startswith('[c-') and v[0] == 'agg' and v[1] in ('array', 'tuple'):
                 try:
                     ci = int(p[2:-1])
@@ -526,6 +532,8 @@ def sv(v, depth=0):
         return sv(v[1], depth) + '.' + v[2]
     if k == 'idx':
         return sv(v[1], depth) + v[2]
+    if k == 'index':
+        return '%s[%s]' % (sv(v[1], depth), sv(v[2], depth + 1))
     if k == 'down':
         return sv(v[1], depth) + '@' + v[2]
     if k == 'discr':
